@@ -25,8 +25,8 @@ def _inputs(ex, st):
 CHECK_NYQUIST = Contract(
     qual="hvsrpy.processing.check_nyquist_frequency", params=["dt", "fcs"],
     requires=["dt > 0"],
-    raises={"ValueError": "exists(c, 0, nc, fcs[c] > 1/(2*dt))"},
-    ensures=["forall(c, 0, nc, fcs[c] <= 1/(2*dt))"],
+    raises={"ValueError": "exists(c, 0, len(fcs), fcs[c] > 1/(2*dt))"},
+    ensures=["forall(c, 0, len(fcs), fcs[c] <= 1/(2*dt))"],
     make_inputs=_inputs, modifies=[],
     notes="A-NP-MAX: max(fcs) bounds every element and is attained")
 
@@ -69,8 +69,12 @@ AX_CNT = [
     # the induction schema itself is applied by hand: A-INDUCTION)
     z3.ForAll([d_, i_, j_], z3.Implies(z3.And(0 <= i_, i_ <= j_), CNT(d_, i_) <= CNT(d_, j_)), patterns=[z3.MultiPattern(CNT(d_, i_), CNT(d_, j_))]),
     z3.ForAll([d_, i_], z3.Implies(i_ >= 0, z3.And(CNT(d_, i_) >= 0, CNT(d_, i_) <= i_)), patterns=[CNT(d_, i_)]),
+    # strictness: a recording with step d is counted (base: unfolding at i; step: monotonicity)
+    z3.ForAll([d_, i_, j_], z3.Implies(z3.And(i_ >= 0, i_ < j_, DT(i_) == d_), CNT(d_, i_) < CNT(d_, j_)), patterns=[z3.MultiPattern(CNT(d_, i_), CNT(d_, j_))]),
 ]
 CNT_LEMMAS = [
+    LemmaTask("cnt-strict[base]", AX_CNT[:2] + [i_ >= 0, DT(i_) == d_], CNT(d_, i_) < CNT(d_, i_ + 1), "a recording with step d increases the count"),
+    LemmaTask("cnt-strict[step]", AX_CNT[:3] + [i_ >= 0, j_ > i_, CNT(d_, i_) < CNT(d_, j_)], CNT(d_, i_) < CNT(d_, j_ + 1), "strictness is kept by monotonicity"),
     LemmaTask("cnt-monotone[step]", AX_CNT[:2] + [i_ >= 0, j_ >= i_, CNT(d_, i_) <= CNT(d_, j_)], CNT(d_, i_) <= CNT(d_, j_ + 1), "CNT(d,i) <= CNT(d,j) ==> CNT(d,i) <= CNT(d,j+1)"),
     LemmaTask("cnt-range[step]", AX_CNT[:2] + [i_ >= 0, CNT(d_, i_) >= 0, CNT(d_, i_) <= i_], z3.And(CNT(d_, i_ + 1) >= 0, CNT(d_, i_ + 1) <= i_ + 1), "0 <= CNT(d,i) <= i"),
 ]
@@ -92,6 +96,7 @@ COUNT_INV = [
     "forall_real(d, implies(dt_with_count_has(d), dt_with_count_val(d) == CNT(d, _k0) and CNT(d, _k0) >= 1))",
     "dt_with_count_wf()",
     "forall(t, 0, dt_with_count_nk(), dt_with_count_val(dt_with_count_key(t)) >= 1)",
+    "_k0 == 0 or dt_with_count_nk() >= 1",
 ]
 
 
@@ -140,7 +145,9 @@ def SUBSEQ(d):
     return [f"len(result[0]) == CNT({d}, L)",
             f"forall(i, 0, L, implies(DT(i) == {d}, result[0][CNT({d}, i)] is records[i]))",
             f"res_nk() == 1 and res_key(0) == {d} and res_has({d})",
-            f"res_val({d}) == CNT({d}, L)"]
+            f"res_val({d}) == CNT({d}, L)",
+            # every retained recording has the kept step (so, counted over the returned list, the dictionary is again step -> count)
+            f"forall(q, 0, len(result[0]), result[0][q].ns.dt_in_seconds == {d})"]
 
 
 PREP = {
@@ -154,7 +161,8 @@ PREP = {
         ensures=["forall_real(d, implies(CNT(d, L) >= 1, smallest_dt <= d))", "CNT(smallest_dt, L) >= 1"] + SUBSEQ("smallest_dt"),
         loops={0: COUNT_INV,
                1: ["count == CNT(smallest_dt, _k1)", "len(abbr_records) == count",
-                   "forall(i, 0, _k1, implies(DT(i) == smallest_dt, abbr_records[CNT(smallest_dt, i)] is records[i]))"]},
+                   "forall(i, 0, _k1, implies(DT(i) == smallest_dt, abbr_records[CNT(smallest_dt, i)] is records[i]))",
+                   "forall(q, 0, len(abbr_records), abbr_records[q].ns.dt_in_seconds == smallest_dt)"]},
         sym_dicts=("dt_with_count",), sym_lists={"abbr_records": "SeismicRecording3C"}, axioms=AX_CNT, make_inputs=_prep_inputs("keeping_smallest_time_step"), modifies=[]),
     "keeping_majority_time_step": Contract(
         qual="hvsrpy.processing.prepare_records_with_inconsistent_dt", params=["records", "settings"], ghost=GH,
@@ -164,10 +172,292 @@ PREP = {
                    "forall(t, 0, _k2, dt_with_count_val(dt_with_count_key(t)) <= majority_count)",
                    "_k2 == 0 or (majority_count >= 1 and dt_with_count_has(majority_dt) and dt_with_count_val(majority_dt) == majority_count)"],
                3: ["count == CNT(majority_dt, _k3)", "len(abbr_records) == count",
-                   "forall(i, 0, _k3, implies(DT(i) == majority_dt, abbr_records[CNT(majority_dt, i)] is records[i]))"]},
+                   "forall(i, 0, _k3, implies(DT(i) == majority_dt, abbr_records[CNT(majority_dt, i)] is records[i]))",
+                   "forall(q, 0, len(abbr_records), abbr_records[q].ns.dt_in_seconds == majority_dt)"]},
         sym_dicts=("dt_with_count",), sym_lists={"abbr_records": "SeismicRecording3C"}, axioms=AX_CNT, make_inputs=_prep_inputs("keeping_majority_time_step"), modifies=[]),
 }
 for _pol, _c in PREP.items():
     TASKS.append(FunctionTask(_c, label=f"hvsrpy.processing.prepare_records_with_inconsistent_dt[{_pol}]",
                               clauses=["the retained recordings are exactly those with the smallest / a most frequent step, in original order; dictionary = step -> count"]))
 TASKS += CNT_LEMMAS
+
+
+# ---------------------------------------------------------------------------------------------------------------------
+# traditional_hvsr_processing: row bookkeeping of the driver (groups of equal time step, reordering to input order).  The numerical
+# stages are opaque array-valued functions of the recording (window, FFT, |.|, combination, smoothing: contracts C01 / C02 / C10); what is
+# proved is that row i of the result is the ratio computed from recording i alone, for every arrangement of time steps.
+from pyvc.core import FuncV, ModV, DictV, ARef, ORef, ArrData, A2, B as _B
+from pyvc.objects import SDRef, SymDictData, SObj
+
+AR = z3.ArraySort(I, R)
+LL = z3.Int("LL")                                   # number of recordings after prepare_records_with_inconsistent_dt
+RR = z3.Const("kept_record_ids", z3.ArraySort(I, I))
+NC = z3.Int("n_center_frequencies")
+FCS = z3.Const("fcs", AR)
+NFFT = z3.Int("n_fft")
+WIDTH, BW = z3.Reals("window_width bandwidth")
+DH, DV, DK, DN = z3.Const("dt_has", z3.ArraySort(R, _B)), z3.Const("dt_count", z3.ArraySort(R, I)), z3.Const("dt_keys", z3.ArraySort(I, R)), z3.Int("dt_nkeys")
+
+TSAMP = objects.arr_term("TimeSeries", "amplitude")  # samples of a time series (by object id)
+TSLEN = objects.fld("TimeSeries", "amplitude_len", I)
+WIN = z3.Function("WIN", AR, I, R, AR)              # window(type, width) applied to samples of a given length
+RFFT = z3.Function("RFFT", AR, I, I, AR)            # rfft(samples, n) (complex spectrum, opaque)
+ABSA = z3.Function("ABSA", AR, AR)                  # element-wise modulus
+COMB = z3.Function("COMB", AR, AR, AR)              # the selected horizontal combination (element-wise; contracts C01)
+FRQ = z3.Function("FRQ", I, R, AR)                  # np.fft.rfftfreq(n, dt)
+SMF = z3.Function("SMF", AR, AR, I, R)              # smoothing operator: (fft frequencies, one raw row, centre-frequency index) -> value (C02)
+KI = z3.Function("KI", R, I)                        # position of a time step in the dictionary's key order
+OFF = z3.Function("OFF", I, I)                      # number of recordings in the groups before group t
+
+
+def _comp(rid, comp):
+    return objects.fld("SeismicRecording3C", comp, I)(rid)
+
+
+def DT2(i):
+    return objects.fld("TimeSeries", "dt_in_seconds", R)(_comp(z3.Select(RR, i), "ns"))
+
+
+def _spec(tsid):
+    return ABSA(RFFT(WIN(TSAMP(tsid), TSLEN(tsid), WIDTH), TSLEN(tsid), NFFT))
+
+
+def HROW(rid):
+    return COMB(_spec(_comp(rid, "ns")), _spec(_comp(rid, "ew")))
+
+
+def VROW(rid):
+    return _spec(_comp(rid, "vt"))
+
+
+def RATIO(i, j):
+    rid = z3.Select(RR, i)
+    return SMF(FRQ(NFFT, DT2(i)), HROW(rid), j) / SMF(FRQ(NFFT, DT2(i)), VROW(rid), j)
+
+
+CNT2 = z3.Function("CNT2", R, I, I)
+_t, _s = z3.Ints("t!o s!o")
+_a, _b = z3.Consts("a!o b!o", AR)
+AX_DRV = [
+    # counting over the kept recordings (same definition and derived facts as CNT above)
+    z3.ForAll([d_], CNT2(d_, 0) == 0, patterns=[CNT2(d_, 0)]),
+    z3.ForAll([d_, i_], z3.Implies(i_ >= 0, CNT2(d_, i_ + 1) == CNT2(d_, i_) + z3.If(DT2(i_) == d_, 1, 0)), patterns=[CNT2(d_, i_ + 1)]),
+    z3.ForAll([d_, i_, j_], z3.Implies(z3.And(0 <= i_, i_ <= j_), CNT2(d_, i_) <= CNT2(d_, j_)), patterns=[z3.MultiPattern(CNT2(d_, i_), CNT2(d_, j_))]),
+    z3.ForAll([d_, i_], z3.Implies(i_ >= 0, z3.And(CNT2(d_, i_) >= 0, CNT2(d_, i_) <= i_)), patterns=[CNT2(d_, i_)]),
+    # what prepare_records_with_inconsistent_dt guarantees about the dictionary it returns (its contract, for every policy)
+    z3.ForAll([d_], z3.Select(DH, d_) == (CNT2(d_, LL) >= 1), patterns=[z3.Select(DH, d_)]),
+    z3.ForAll([d_], z3.Implies(z3.Select(DH, d_), z3.Select(DV, d_) == CNT2(d_, LL)), patterns=[z3.Select(DV, d_)]),
+    # key positions (skolem function of the well-formedness clause "every member is listed")
+    z3.ForAll([d_], z3.Implies(z3.Select(DH, d_), z3.And(KI(d_) >= 0, KI(d_) < DN, z3.Select(DK, KI(d_)) == d_)), patterns=[KI(d_)]),
+    # offsets of the groups: prefix sums of the counts in key order; monotone (base/step lemma below); total = number of recordings
+    OFF(0) == 0,
+    z3.ForAll([_t], z3.Implies(z3.And(_t >= 0, _t < DN), OFF(_t + 1) == OFF(_t) + z3.Select(DV, z3.Select(DK, _t))), patterns=[OFF(_t + 1)]),
+    z3.ForAll([_s, _t], z3.Implies(z3.And(0 <= _s, _s <= _t, _t <= DN), OFF(_s) <= OFF(_t)), patterns=[z3.MultiPattern(OFF(_s), OFF(_t))]),
+    OFF(DN) == LL,
+    # derived facts (each proved from the clauses above by the lemma tasks below; stated here with the triggers the proof search needs)
+    z3.ForAll([i_], z3.Implies(z3.And(i_ >= 0, i_ < LL), z3.Select(DH, DT2(i_))), patterns=[DT2(i_)]),
+    z3.ForAll([d_, i_, j_], z3.Implies(z3.And(i_ >= 0, i_ < j_, DT2(i_) == d_), CNT2(d_, i_) < CNT2(d_, j_)), patterns=[z3.MultiPattern(CNT2(d_, i_), CNT2(d_, j_))]),
+    z3.ForAll([_s, _t], z3.Implies(z3.And(_s >= 0, _s < _t, _t <= DN), OFF(_s) + z3.Select(DV, z3.Select(DK, _s)) <= OFF(_t)), patterns=[z3.MultiPattern(OFF(_s), OFF(_t))]),
+    # every listed time step is the step of some kept recording (prepare_records_with_inconsistent_dt's contract), hence positive
+    z3.ForAll([d_], z3.Implies(z3.Select(DH, d_), d_ > 0), patterns=[z3.Select(DH, d_)]),
+    # the ratio is defined: smoothed vertical spectra are non-zero (in IEEE arithmetic a zero gives inf/NaN, in the reals nothing)
+    z3.ForAll([_a, _b, i_], SMF(_a, _b, i_) != 0, patterns=[SMF(_a, _b, i_)]),
+]
+
+
+def _drv_inputs(method, operator):
+    def mk(ex, st):
+        st.env["records"] = new_symlist(ex, st, "SeismicRecording3C", length=z3.Int("L_in"), arr=z3.Const("input_record_ids", z3.ArraySort(I, I)), owner="param:records", name="records")
+        fcs = ex.alloc_arr(st, (NC,), FCS, "real", "param:settings.smoothing.center_frequencies_in_hz", tag="fcs")
+        st.env["settings"] = sym_obj(ex, st, "Settings", {
+            "smoothing": DictV({"center_frequencies_in_hz": fcs, "operator": StrV(operator), "bandwidth": BW}),
+            "fft_settings": NONE_, "window_type_and_width": Tup((StrV("tukey"), WIDTH)),
+            "method_to_combine_horizontals": StrV(method), "attr_dict": DictV({}),
+            "handle_dissimilar_time_steps_by": StrV("frequency_domain_resampling")}, owner="param:settings")
+        st.env["LL"], st.env["NC"] = LL, NC
+        k = z3.Int("k!dt")
+        return [NC >= 1, NFFT >= 2, z3.ForAll([k], DT2(k) > 0, patterns=[DT2(k)])]
+    return mk
+
+
+from pyvc.core import NONE as NONE_
+
+
+def _m_prepare_fft(ex, st, args, kw, node):
+    st.heap[args[1].oid].fields["fft_settings"] = DictV({"n": NFFT})
+    return NONE_
+
+
+def _m_prepare_records(ex, st, args, kw, node):
+    recs = new_symlist(ex, st, "SeismicRecording3C", length=LL, arr=RR, owner="param:records", name="kept_records")
+    sid = ex.new_sid("dt_with_count")
+    st.heap[sid] = SymDictData(DH, DV, DK, DN, "fresh")
+    st.pc += [LL >= 1] + objects.symdict_wf(st.heap[sid])
+    return Tup((recs, SDRef(sid)))
+
+
+def _m_from_timeseries(ex, st, args, kw, node):
+    ts = args[0]
+    amp = ex.alloc_arr(st, (TSLEN(ts.id),), TSAMP(ts.id), "real", "fresh", tag="copy")
+    st.pc.append(TSLEN(ts.id) >= 0)
+    return ex.alloc_obj(st, "TimeSeries", {"amplitude": amp, "dt_in_seconds": objects.fld("TimeSeries", "dt_in_seconds", R)(ts.id)}, "fresh")
+
+
+def _m_timeseries_ctor(ex, st, args, kw, node):
+    """TimeSeries(amplitude, dt_in_seconds): the object owns a copy of the samples (contract: C18)"""
+    d = ex.arr(st, args[0])
+    dt_ = args[1] if len(args) > 1 else kw["dt_in_seconds"]
+    amp = ex.alloc_arr(st, d.shape, d.data, "real", "fresh", tag="copy")
+    return ex.alloc_obj(st, "TimeSeries", {"amplitude": amp, "dt_in_seconds": dt_}, "fresh")
+
+
+def _m_window(ex, st, args, kw, node):
+    ts = args[0]
+    ref = st.heap[ts.oid].fields["amplitude"]
+    d = st.heap[ref.sid]
+    st.heap[ref.sid] = ArrData(d.shape, WIN(d.data, d.shape[0], z3.simplify(real_(args[2]))), d.elem, d.owner, d.view_of)
+    return NONE_
+
+
+from pyvc.core import real as real_
+
+
+def _m_rfft(ex, st, args, kw, node):
+    d = ex.arr(st, args[0])
+    n = kw["n"]
+    return ex.alloc_arr(st, (n / 2 + 1,), RFFT(d.data, d.shape[0], n), "real", "fresh", tag="rfft")
+
+
+def _m_abs(ex, st, args, kw, node):
+    d = ex.arr(st, args[0])
+    return ex.alloc_arr(st, d.shape, ABSA(d.data), "real", "fresh", tag="abs")
+
+
+def _m_comb(ex, st, args, kw, node):
+    a, b = ex.arr(st, args[0]), ex.arr(st, args[1])
+    return ex.alloc_arr(st, a.shape, COMB(a.data, b.data), "real", "fresh", tag="h")
+
+
+def _m_rfftfreq(ex, st, args, kw, node):
+    return ex.alloc_arr(st, (args[0] / 2 + 1,), FRQ(args[0], real_(args[1])), "real", "fresh", tag="fft_frq")
+
+
+def _m_smooth(ex, st, args, kw, node):
+    frq, raw, fcs = ex.arr(st, args[0]), ex.arr(st, args[1]), ex.arr(st, args[2])
+    out = ex.fresh("smooth", A2(R))
+    r, c = z3.Ints("r!sm c!sm")
+    st.pc.append(z3.ForAll([r, c], z3.Select(z3.Select(out, r), c) == SMF(frq.data, z3.Select(raw.data, r), c), patterns=[z3.Select(z3.Select(out, r), c)]))
+    return ex.alloc_arr(st, (raw.shape[0], fcs.shape[0]), out, "real", "fresh", tag="smooth")
+
+
+def _m_hvsr_ctor(ex, st, args, kw, node):
+    f, a = ex.arr(st, args[0]), ex.arr(st, args[1])
+    return ex.alloc_obj(st, "HvsrTraditional", {"frequency": ex.alloc_arr(st, f.shape, f.data, "real", "fresh", tag="frequency"),
+                                                "amplitude": ex.alloc_arr(st, a.shape, a.data, "real", "fresh", tag="amplitude"),
+                                                "meta": kw.get("meta", NONE_)}, "fresh")
+
+
+def _row_is(ex, st, args, kw, node):
+    return z3.Select(st.heap[args[0].sid].data, args[1]) == args[2]
+
+
+_METHODS = ("arithmetic_mean", "squared_average", "quadratic_mean", "root_mean_square", "effective_amplitude_spectrum", "geometric_mean",
+            "total_horizontal_energy", "vector_summation", "maximum_horizontal_value")
+_OPERATORS = ("konno_and_ohmachi", "parzen", "savitzky_and_golay", "linear_rectangular", "log_rectangular", "linear_triangular", "log_triangular")
+_NP_DRV = ModV("np", dict(npm.NP.attrs, abs=FuncV(_m_abs, "np.abs"), fft=ModV("np.fft", {"rfftfreq": FuncV(_m_rfftfreq, "np.fft.rfftfreq")})))
+DRV_ENV = {
+    "prepare_fft_settings": FuncV(_m_prepare_fft, "prepare_fft_settings"),
+    "prepare_records_with_inconsistent_dt": FuncV(_m_prepare_records, "prepare_records_with_inconsistent_dt"),
+    "check_nyquist_frequency": CHECK_NYQUIST,
+    "TimeSeries": FuncV(lambda ex, st, a, k, n_: _m_timeseries_ctor(ex, st, a, k, n_), "TimeSeries", attrs={"from_timeseries": FuncV(_m_from_timeseries, "TimeSeries.from_timeseries")}),
+    "rfft": FuncV(_m_rfft, "rfft"), "np": _NP_DRV,
+    "COMBINE_HORIZONTAL_REGISTER": DictV({k: FuncV(_m_comb, k) for k in _METHODS}),
+    "SMOOTHING_OPERATORS": DictV({k: FuncV(_m_smooth, k) for k in _OPERATORS}),
+    "HvsrTraditional": FuncV(_m_hvsr_ctor, "HvsrTraditional"),
+}
+GH_DRV = {"CNT2": CNT2, "DT2": lambda i: DT2(i), "OFF": OFF, "KI": KI, "RATIO": lambda i, j: RATIO(i, j), "RID": lambda i: z3.Select(RR, i),
+          "HROW": lambda r: HROW(r), "VROW": lambda r: VROW(r), "row_is": FuncV(_row_is, "row_is")}
+_ORD = "hvsr_indices_to_order"
+_EARLIER = "KI(DT2(i)) < _k0"
+_POS = "OFF(KI(DT2(i))) + CNT2(DT2(i), i)"
+DRV = Contract(
+    qual="hvsrpy.processing.traditional_hvsr_processing", params=["records", "settings"], ghost=GH_DRV, axioms=AX_DRV,
+    make_inputs=_drv_inputs("geometric_mean", "konno_and_ohmachi"),
+    raises_only_if={"ValueError": "exists(c, 0, NC, exists(i, 0, LL, settings.smoothing['center_frequencies_in_hz'][c] > 1 / (2 * DT2(i))))"},
+    ensures=["len(result.frequency) == NC", "forall(c, 0, NC, result.frequency[c] == settings.smoothing['center_frequencies_in_hz'][c])",
+             "result.amplitude.shape[0] == LL and result.amplitude.shape[1] == NC",
+             "forall(i, 0, LL, forall(j, 0, NC, result.amplitude[i, j] == RATIO(i, j)))"],
+    loops={0: ["hvsr_idx == OFF(_k0)", "cur_idx == OFF(_k0)",
+               f"forall(i, 0, LL, implies({_EARLIER}, {_ORD}[i] == {_POS}))",
+               f"forall(i, 0, LL, implies({_EARLIER}, forall(j, 0, NC, hvsr_spectra[{_POS}, j] == RATIO(i, j))))"],
+           1: ["hor_idx == CNT2(dt, _k1)", "ver_idx == count + CNT2(dt, _k1)", "cur_idx == OFF(_k0) + CNT2(dt, _k1)",
+               f"forall(i, 0, _k1, implies(DT2(i) == dt, {_ORD}[i] == OFF(_k0) + CNT2(dt, i)))",
+               "forall(i, 0, _k1, implies(DT2(i) == dt, row_is(raw_spectra, CNT2(dt, i), HROW(RID(i))) and row_is(raw_spectra, count + CNT2(dt, i), VROW(RID(i)))))",
+               f"forall(i, 0, LL, implies({_EARLIER}, {_ORD}[i] == {_POS}))"],
+           2: ["True"]},          # the diagnostic print loop changes nothing
+    stable_shapes=("raw_spectra", _ORD, "hvsr_spectra"), modifies=["param:settings"],
+    notes="row i of the result = smoothed |FFT| ratio of kept recording i alone, for every arrangement of time steps over the recordings")
+DRV.native_row_store = True
+
+# traditional_single_azimuth_hvsr_processing: same bookkeeping, horizontal = single_azimuth(ns, ew, azimuth) in the time domain
+SAZ = z3.Function("SAZ", AR, AR, R, AR)             # single_azimuth(ns, ew, degrees) (element-wise; contract C01)
+AZ = z3.Real("azimuth_in_degrees")
+
+
+def HROW_SA(rid):
+    ns, ew = _comp(rid, "ns"), _comp(rid, "ew")
+    return ABSA(RFFT(WIN(SAZ(TSAMP(ns), TSAMP(ew), AZ), TSLEN(ns), WIDTH), TSLEN(ns), NFFT))
+
+
+def RATIO_SA(i, j):
+    rid = z3.Select(RR, i)
+    return SMF(FRQ(NFFT, DT2(i)), HROW_SA(rid), j) / SMF(FRQ(NFFT, DT2(i)), VROW(rid), j)
+
+
+def _m_single_azimuth(ex, st, args, kw, node):
+    a, b = ex.arr(st, args[0]), ex.arr(st, args[1])
+    return ex.alloc_arr(st, a.shape, SAZ(a.data, b.data, real_(args[2])), "real", "fresh", tag="h")
+
+
+def _drv_sa_inputs(ex, st):
+    facts = _drv_inputs("single_azimuth", "konno_and_ohmachi")(ex, st)
+    st.heap[st.env["settings"].oid].fields["azimuth_in_degrees"] = AZ
+    return facts
+
+
+GH_SA = dict(GH_DRV, RATIO=lambda i, j: RATIO_SA(i, j), HROW=lambda r: HROW_SA(r))
+DRV_SA = Contract(
+    qual="hvsrpy.processing.traditional_single_azimuth_hvsr_processing", params=["records", "settings"], ghost=GH_SA, axioms=AX_DRV,
+    make_inputs=_drv_sa_inputs, raises_only_if=DRV.raises_only_if, ensures=DRV.ensures, loops={0: DRV.loops[0], 1: DRV.loops[1]},
+    stable_shapes=DRV.stable_shapes, modifies=["param:settings"], notes=DRV.notes)
+DRV_SA.native_row_store = True
+DRV_SA.array_fields_as_terms = True
+TASKS.append(FunctionTask(DRV_SA, module_env=dict(DRV_ENV, single_azimuth=FuncV(_m_single_azimuth, "single_azimuth")),
+                          registry={"TimeSeries.window": FuncV(_m_window, "TimeSeries.window")},
+                          label="hvsrpy.processing.traditional_single_azimuth_hvsr_processing[rows]",
+                          clauses=["one curve per window, in input order, each computed from its own window only"]))
+TASKS.append(FunctionTask(DRV, module_env=DRV_ENV, registry={"TimeSeries.window": FuncV(_m_window, "TimeSeries.window")},
+                          label="hvsrpy.processing.traditional_hvsr_processing[rows]",
+                          clauses=["one curve per window, in input order, each computed from its own window only"]))
+
+
+# ---- the derived clauses of AX_DRV, each from the defining clauses (unfoldings, the dictionary's contract, well-formedness): base and step
+# of the induction on the index (the schema itself: A-INDUCTION, applied by hand as for CNT above)
+_DEF = AX_DRV[0:2] + AX_DRV[4:7] + AX_DRV[7:9]          # CNT2 unfoldings, dictionary contract, key positions, OFF unfoldings
+_WF = objects.symdict_wf(SymDictData(DH, DV, DK, DN, "fresh"))
+_i, _j, _d = z3.Int("i!L"), z3.Int("j!L"), z3.Real("d!L")
+DRV_LEMMAS = [
+    LemmaTask("cnt2-monotone[step]", _DEF + [_i >= 0, _j >= _i, CNT2(_d, _i) <= CNT2(_d, _j)], CNT2(_d, _i) <= CNT2(_d, _j + 1), "CNT2(d,i) <= CNT2(d,j) ==> CNT2(d,i) <= CNT2(d,j+1)"),
+    LemmaTask("cnt2-range[step]", _DEF + [_i >= 0, CNT2(_d, _i) >= 0, CNT2(_d, _i) <= _i], z3.And(CNT2(_d, _i + 1) >= 0, CNT2(_d, _i + 1) <= _i + 1), "0 <= CNT2(d,i) <= i"),
+    LemmaTask("every-step-is-listed", _DEF + [AX_DRV[2], _i >= 0, _i < LL], z3.And(CNT2(DT2(_i), _i + 1) >= 1, CNT2(DT2(_i), _i + 1) <= CNT2(DT2(_i), LL), z3.Select(DH, DT2(_i))),
+              "the step of every kept recording is a key (unfold at i, monotone up to LL, dictionary contract)"),
+    LemmaTask("cnt2-strict[base]", _DEF + [_i >= 0, DT2(_i) == _d], CNT2(_d, _i) < CNT2(_d, _i + 1), "a recording with step d increases the count"),
+    LemmaTask("cnt2-strict[step]", _DEF + [AX_DRV[2], _i >= 0, _j > _i, CNT2(_d, _i) < CNT2(_d, _j)], CNT2(_d, _i) < CNT2(_d, _j + 1), "strictness is kept by monotonicity"),
+    LemmaTask("off-monotone[step]", _DEF + _WF + [AX_DRV[3], _i >= 0, _i <= _j, _j < DN, OFF(_i) <= OFF(_j)], OFF(_i) <= OFF(_j + 1), "offsets are non-decreasing (counts of listed keys are >= 1)"),
+    LemmaTask("off-strict[base]", _DEF + [_i >= 0, _i < DN], OFF(_i) + z3.Select(DV, z3.Select(DK, _i)) <= OFF(_i + 1), "group s ends where group s+1 starts"),
+    LemmaTask("off-strict[step]", _DEF + _WF + [AX_DRV[3], _i >= 0, _i < _j, _j < DN, OFF(_i) + z3.Select(DV, z3.Select(DK, _i)) <= OFF(_j)],
+              OFF(_i) + z3.Select(DV, z3.Select(DK, _i)) <= OFF(_j + 1), "and stays below every later offset"),
+    LemmaTask("listed-step-positive[step]", _DEF + [_i >= 0, DT2(_i) > 0, CNT2(_d, _i + 1) >= 1, z3.Implies(CNT2(_d, _i) >= 1, _d > 0)], _d > 0,
+              "a step counted at least once among positive steps is positive (induction on the index; base: CNT2(d,0) = 0)"),
+]
+TASKS += DRV_LEMMAS
